@@ -68,6 +68,7 @@ def integrate_case(case):
         "layout": case["layout"],
         "storage": case["storage"],
         "square": bool(case["square"]),
+        "prev": case["prev"],
     }
     rule, order = X.RULE_NAMES[case["quad"]]
     try:
@@ -79,6 +80,17 @@ def integrate_case(case):
             _ = g.face_areas
         elif case["prev"] == "compute_other":
             g.compute_face_areas(*OTHER[case["quad"]])
+        elif case["prev"] in ("edit_same_scale", "edit_same_zero", "edit_default_scale"):
+            # the caller changes, in place, the arrays an earlier call returned to it
+            a_, j_ = g.compute_face_areas(rule, order) if case["prev"] != "edit_default_scale" else g.compute_face_areas()
+            for arr in (a_, j_):
+                if isinstance(arr, np.ndarray) and arr.flags.writeable:
+                    if case["prev"] == "edit_same_zero":
+                        arr[...] = 0.0
+                    else:
+                        arr *= 6371.0**2
+            if case["prev"] == "edit_default_scale":
+                _ = g.face_areas
         da = _array(ux, np, g, case["table"], case["lead"], case["dims"], case["name"], case["dtype"], case["layout"], case["storage"])
         if case["storage"] == "dask" and not hasattr(da.data, "dask"):
             return {"machinery": "case %s: the array is not dask-backed" % case["id"]}
@@ -86,7 +98,11 @@ def integrate_case(case):
             da = ux.UxDataset({case["name"]: da}, uxgrid=g)
     except Exception as e:  # noqa
         return {"machinery": "could not set up case %s: %s: %s" % (case["id"], type(e).__name__, str(e)[:200])}
+    src_grid = g
     try:
+        if case["api"] == "isel":
+            da = da.isel(n_face=list(case["sel_faces"]))
+            src_grid = da.uxgrid
         r = da.integrate(quadrature_rule=rule, order=order)
     except Exception as e:  # noqa
         rec["raised"] = True
@@ -96,7 +112,7 @@ def integrate_case(case):
         rec["is_uxda"] = isinstance(r, ux.UxDataArray)
         rec["dims"] = [str(d) for d in getattr(r, "dims", ())]
         rec["name"] = "" if getattr(r, "name", None) is None else str(r.name)
-        rec["same_grid"] = getattr(r, "uxgrid", None) is g
+        rec["same_grid"] = getattr(r, "uxgrid", None) is src_grid
         rec["shape"] = [int(s) for s in np.shape(getattr(r, "values", r))]
         if exp["outcome"] != "Rejected" and rec["shape"] == list(exp["shape"]):
             areas, total = _fresh_areas(mesh, case["quad"])
@@ -108,7 +124,17 @@ def integrate_case(case):
                 qs.append(X.quant(v - e, scale))
             rec["q"] = X.qmax(qs)
             rec["value0"] = got[0] if got else None
-            if case["pat"] == "ones":
+            if case["api"] == "isel":
+                # the parts of a partition add up to the integral over the parent (all from the same parent object)
+                full = _array(ux, np, g, case["table"], case["lead"], case["dims"], case["name"], case["dtype"])
+                comp = _flat(np, full.isel(n_face=list(case["comp_faces"])).integrate(rule, order))
+                whole = _flat(np, full.integrate(rule, order))
+                qp = []
+                for k, v in enumerate(got):
+                    scale = math.fsum(abs(c) * a for c, a in zip(case["table"][k], areas)) or 1.0
+                    qp.append(X.quant(v + comp[k] - whole[k], scale))
+                rec["qpart"] = X.qmax(qp)
+            if case["pat"] == "ones" and case["api"] != "isel":
                 rec["qone"] = X.qmax(X.quant(v - total, total) for v in got)
             if case["parts"]:
                 a_, b_, tx, ty = case["parts"]
